@@ -137,11 +137,18 @@ NewCall(kind, pay, md, to) ==
   [kind |-> kind, id |-> "", pay |-> pay, md |-> md, dl |-> IF to > 0 THEN T + to ELSE -1,
    opened |-> "", sent |-> <<>>, late |-> <<>>, nW |-> 0, nOk |-> 0,
    closeCalled |-> FALSE, closeW |-> FALSE, rstW |-> FALSE, cancelled |-> FALSE,
-   recvd |-> 0, term |-> "", tcode |-> -1, uret |-> FALSE, sendFailed |-> FALSE, sendRefused |-> FALSE, rstLost |-> FALSE]
+   recvd |-> 0, term |-> "", tcode |-> -1, uret |-> FALSE, sendFailed |-> FALSE, sendRefused |-> FALSE, rstLost |-> FALSE, bad |-> FALSE]
 
 UCall(c, pay, md, to) ==
   /\ c \notin DOMAIN calls
   /\ calls' = Put(calls, c, NewCall("unary", pay, md, to))
+  /\ UNCHANGED <<cfg, phase, byId, hi, gaps, cw, nSR, sw, nCR, cin, sin, preq, hnds, hOf,
+                 flt, creg, sreg, base, pend, live, cregN, parked>>
+
+\* a unary call whose request the codec refuses: it fails locally and nothing is written for it
+UCallBad(c, md, to) ==
+  /\ c \notin DOMAIN calls
+  /\ calls' = Put(calls, c, [NewCall("unary", "", md, to) EXCEPT !.bad = TRUE])
   /\ UNCHANGED <<cfg, phase, byId, hi, gaps, cw, nSR, sw, nCR, cin, sin, preq, hnds, hOf,
                  flt, creg, sreg, base, pend, live, cregN, parked>>
 
@@ -178,6 +185,7 @@ ClientWrite(env) ==
   /\ \/ \* first envelope of a call: carries the call token
         /\ env.c \in DOMAIN calls
         /\ calls[env.c].id = ""
+        /\ G("wire", ~calls[env.c].bad)
         /\ LET c == env.c IN
            /\ G("ids", FreshId(env.idn)) /\ UseId(env.idn)
            /\ env.id \notin DOMAIN byId
@@ -353,6 +361,12 @@ HRecvRet(h, res, pay) ==
 HSend(h, pay) ==
   /\ h \in DOMAIN hnds /\ hnds[h].kind # "unary" /\ ~hnds[h].ret
   /\ HUpd(h, [hnds[h] EXCEPT !.sent = Append(@, pay), !.sres = Append(@, "?"), !.hsent = TRUE])
+
+\* SendMsg with a message the codec refuses: it fails, nothing is written for it, the stream goes on
+HSendBad(h, res) ==
+  /\ h \in DOMAIN hnds /\ hnds[h].kind # "unary" /\ ~hnds[h].ret
+  /\ G("pay", res = "err")
+  /\ HUpd(h, hnds[h])
 
 HSendRet(h, res) ==
   /\ h \in DOMAIN hnds /\ Len(hnds[h].sres) > 0 /\ hnds[h].sres[Len(hnds[h].sres)] = "?"
@@ -556,6 +570,7 @@ URet(c, res, code, msg, ndet, pay) ==
         /\ G("status", HandlerOkHealthy(c) => CtxDone(c))
         /\ ( \/ CtxDone(c)
              \/ CliDown
+             \/ calls[c].bad
              \/ /\ calls[c].id # "" /\ x.n > 0
                 /\ \/ x.fs = 1 /\ x.fcode # OK /\ G("status", code = x.fcode /\ msg = x.fmsg /\ ndet = x.fndet)
                    \/ x.fb = 0 /\ (x.fs = 0 \/ x.fcode = OK)      \* malformed: neither body nor error
